@@ -114,6 +114,7 @@ type Emitter struct {
 	Problems   []string
 	Top        *Template // what Compile emits after the root (casts)
 	EmitSites  int
+	Defs       *LocalDefs // single-definition locals of package compiler (looked through)
 }
 
 // BuildEmitter extracts one template per (kind, path).
@@ -134,6 +135,11 @@ func BuildEmitter(p *core.Program, nk *NodeKinds, vm *VMModel) (*Emitter, string
 		return nil, "compiler type not found"
 	}
 	em.CompType = ct
+	var files []ast.Node
+	for _, f := range pk.Syntax {
+		files = append(files, f)
+	}
+	em.Defs = SingleDefsOf(info, files...)
 	if msg := em.classify(); msg != "" {
 		return nil, msg
 	}
@@ -523,7 +529,8 @@ func (it *tinterp) run(atoms []Atom, loopSlot string) {
 			case fn != nil && em.Prims[fn] == "makeconst":
 				o := TOperand{Kind: "const"}
 				if len(call.Args) == 1 {
-					arg := it.subst(call.Args[0])
+					// the constant may have been given a name first (`call := Call{…}`)
+					arg := it.subst(it.em.Defs.Resolve(it.subst(call.Args[0])))
 					o.ConstExpr = arg
 					if tv, ok := info.Types[arg]; ok {
 						o.ConstType = tv.Type
